@@ -9,8 +9,12 @@
 #include "oneapi/tbb/concurrent_map.h"
 #include "oneapi/tbb/concurrent_set.h"
 #include "oneapi/tbb/concurrent_priority_queue.h"
+#include "oneapi/tbb/enumerable_thread_specific.h"
+#include "oneapi/tbb/combinable.h"
+#include <functional>
 #include <string>
 #include <utility>
+#include <vector>
 
 template class tbb::concurrent_queue<int>;
 template class tbb::concurrent_queue<std::string>;
@@ -30,6 +34,22 @@ template class tbb::concurrent_map<int, int>;
 template class tbb::concurrent_multimap<int, int>;
 template class tbb::concurrent_set<int>;
 template class tbb::concurrent_multiset<int>;
+// the implementation lives in base class templates: an explicit instantiation of the derived class does not instantiate
+// their members (copy / move / swap / ranges / node handles), so the bases are instantiated explicitly as well
+namespace d1 = tbb::detail::d1;
+namespace d2 = tbb::detail::d2;
+typedef tbb::tbb_allocator<std::pair<const int, int>> pair_alloc;
+template class d2::concurrent_unordered_base<d2::concurrent_unordered_map_traits<int, int, std::hash<int>, std::equal_to<int>, pair_alloc, false>>;
+template class d2::concurrent_unordered_base<d2::concurrent_unordered_map_traits<int, int, std::hash<int>, std::equal_to<int>, pair_alloc, true>>;
+template class d2::concurrent_unordered_base<d2::concurrent_unordered_set_traits<int, std::hash<int>, std::equal_to<int>, tbb::tbb_allocator<int>, false>>;
+template class d2::concurrent_unordered_base<d2::concurrent_unordered_set_traits<int, std::hash<int>, std::equal_to<int>, tbb::tbb_allocator<int>, true>>;
+template class d2::concurrent_skip_list<d2::map_traits<int, int, std::less<int>, d2::concurrent_geometric_level_generator<32>, pair_alloc, false>>;
+template class d2::concurrent_skip_list<d2::map_traits<int, int, std::less<int>, d2::concurrent_geometric_level_generator<32>, pair_alloc, true>>;
+template class d2::concurrent_skip_list<d2::set_traits<int, std::less<int>, d2::concurrent_geometric_level_generator<32>, tbb::tbb_allocator<int>, false>>;
+template class d2::concurrent_skip_list<d2::set_traits<int, std::less<int>, d2::concurrent_geometric_level_generator<32>, tbb::tbb_allocator<int>, true>>;
+template class tbb::enumerable_thread_specific<int>;
+template class tbb::enumerable_thread_specific<std::string, tbb::cache_aligned_allocator<std::string>, tbb::ets_key_per_instance>;
+template class tbb::combinable<int>;
 
 namespace drv {
 void queues() {
@@ -169,5 +189,192 @@ void pq() {
     q.clear();
     tbb::concurrent_priority_queue<std::string> q2(q);
     q2 = q;
+}
+// transparent (heterogeneous) lookup overloads
+struct teq {
+    using is_transparent = void;
+    template <typename A, typename B> bool operator()(const A& a, const B& b) const { return a == b; }
+};
+struct tless {
+    using is_transparent = void;
+    template <typename A, typename B> bool operator()(const A& a, const B& b) const { return a < b; }
+};
+struct thash {
+    using is_transparent = void;
+    using transparent_key_equal = teq;
+    std::size_t operator()(int k) const { return std::size_t(k); }
+    std::size_t operator()(long k) const { return std::size_t(k); }
+};
+template <typename C>
+void iterate_and_ranges(C& c) {
+    const C& cc = c;
+    auto r = c.range();
+    auto cr = cc.range();
+    (void)r.empty();
+    (void)r.is_divisible();
+    (void)cr.is_divisible();
+    decltype(r) r2(r, tbb::split());
+    decltype(cr) cr2(cr, tbb::split());
+    for (auto it = r.begin(); it != r.end(); ++it) {}
+    for (auto it = cr2.begin(); it != cr2.end(); it++) {}
+    (void)r2.grainsize();
+    (void)(c == cc);
+    (void)(c != cc);
+    C moved(std::move(c));
+    C assigned;
+    assigned = std::move(moved);
+    assigned.swap(c);
+    swap(assigned, c);
+}
+void more_hash_map() {
+    typedef tbb::concurrent_hash_map<int, int> M;
+    M m;
+    const M& cm = m;
+    iterate_and_ranges(m);
+    (void)m.equal_range(1);
+    (void)cm.equal_range(1);
+    for (auto it = m.begin(); it != m.end(); ++it) { (void)it->first; }
+    M m3(m, M::allocator_type());
+    M m4(std::move(m3), M::allocator_type());
+    std::vector<std::pair<const int, int>> v;
+    M m5(v.begin(), v.end());
+    M m6{{1, 2}, {3, 4}};
+    m6 = {{5, 6}};
+    m6.insert(v.begin(), v.end());
+    m6.insert({{7, 8}});
+    typedef tbb::concurrent_hash_map<int, int, d1::tbb_hash_compare<int>> M2;
+    M2 m7(16);
+    M2 m8(16, d1::tbb_hash_compare<int>());
+}
+void more_vectors() {
+    typedef tbb::concurrent_vector<int> V;
+    V v(10, 1);
+    const V& cv = v;
+    iterate_and_ranges(v);
+    V::iterator it = v.begin();
+    V::const_iterator cit = cv.begin();
+    it += 2; it -= 1; (void)(it + 1); (void)(1 + it); (void)(it - 1); (void)it[1]; --it; it--; (void)(it - it);
+    (void)(it < it); (void)(it > it); (void)(it <= it); (void)(it >= it); (void)(cit == cit);
+    (void)it.operator->();
+    (void)(v < cv); (void)(v <= cv); (void)(v > cv); (void)(v >= cv);
+    int arr[2] = {1, 2};
+    v.assign(arr, arr + 2);
+    v.assign({1, 2, 3});
+    V v3(v, V::allocator_type());
+    V v4(std::move(v3), V::allocator_type());
+    V v5(arr, arr + 2);
+    V v6{1, 2};
+    v6 = {3};
+    (void)v.front(); (void)v.back(); (void)cv.front(); (void)cv.back();
+    (void)v.rbegin(); (void)v.rend(); (void)cv.crbegin();
+    (void)v.capacity(); (void)v.max_size(); (void)v.empty();
+}
+template <typename C, typename V>
+void node_handles(V value) {
+    C c, d;
+    (void)c.insert(value);
+    auto nh = c.unsafe_extract(c.begin());
+    (void)nh.empty();
+    (void)d.insert(std::move(nh));
+    auto nh2 = d.unsafe_extract(d.find(typename C::key_type()));
+    (void)d.insert(d.begin(), std::move(nh2));
+    (void)c.insert(c.begin(), value);
+    (void)c.emplace_hint(c.begin(), value);
+    (void)c.unsafe_erase(c.begin());
+    (void)c.unsafe_erase(c.begin(), c.end());
+    std::vector<V> vs;
+    c.insert(vs.begin(), vs.end());
+    c.insert({value});
+    iterate_and_ranges(c);
+    C e(c, typename C::allocator_type());
+    C f(std::move(e), typename C::allocator_type());
+    c.merge(std::move(d));
+}
+void more_assoc() {
+    node_handles<tbb::concurrent_unordered_map<int, int>>(std::make_pair(1, 2));
+    node_handles<tbb::concurrent_unordered_multimap<int, int>>(std::make_pair(1, 2));
+    node_handles<tbb::concurrent_unordered_set<int>>(1);
+    node_handles<tbb::concurrent_unordered_multiset<int>>(1);
+    node_handles<tbb::concurrent_map<int, int>>(std::make_pair(1, 2));
+    node_handles<tbb::concurrent_multimap<int, int>>(std::make_pair(1, 2));
+    node_handles<tbb::concurrent_set<int>>(1);
+    node_handles<tbb::concurrent_multiset<int>>(1);
+    tbb::concurrent_unordered_map<int, int, thash> tu;
+    (void)tu.find(1L); (void)tu.count(1L); (void)tu.contains(1L); (void)tu.equal_range(1L); (void)tu.unsafe_erase(1L); (void)tu.unsafe_extract(1L);
+    tu.reserve(100); tu.max_load_factor(2.0f); (void)tu.load_factor(); (void)tu.unsafe_bucket(1); (void)tu.unsafe_bucket_size(0);
+    (void)tu.unsafe_begin(0); (void)tu.unsafe_end(0); (void)tu.unsafe_cbegin(0); (void)tu.unsafe_cend(0); (void)tu.hash_function(); (void)tu.key_eq();
+    tbb::concurrent_unordered_set<int, thash> ts;
+    (void)ts.find(1L); (void)ts.count(1L); (void)ts.contains(1L);
+    tbb::concurrent_map<int, int, tless> tm;
+    (void)tm.find(1L); (void)tm.count(1L); (void)tm.contains(1L); (void)tm.lower_bound(1L); (void)tm.upper_bound(1L); (void)tm.equal_range(1L);
+    (void)tm.unsafe_erase(1L); (void)tm.unsafe_extract(1L);
+    tbb::concurrent_set<int, tless> tset;
+    (void)tset.find(1L); (void)tset.contains(1L); (void)tset.lower_bound(1L);
+    tbb::concurrent_unordered_map<int, int> um2(16);
+    (void)um2.emplace(std::piecewise_construct, std::forward_as_tuple(1), std::forward_as_tuple(2));
+    (void)um2.insert(std::pair<int, int>(1, 2));
+}
+void more_queues() {
+    tbb::concurrent_queue<int> q;
+    int arr[2] = {1, 2};
+    tbb::concurrent_queue<int> q2(arr, arr + 2);
+    tbb::concurrent_queue<int> q3(std::move(q2));
+    q3 = std::move(q);
+    q3.swap(q);
+    for (auto it = q.unsafe_begin(); it != q.unsafe_end(); ++it) {}
+    tbb::concurrent_bounded_queue<int> b(arr, arr + 2);
+    tbb::concurrent_bounded_queue<int> b2(std::move(b));
+    b2 = std::move(b);
+    b2.swap(b);
+    (void)b.capacity(); (void)b.empty();
+    for (auto it = b.unsafe_begin(); it != b.unsafe_end(); ++it) {}
+    tbb::concurrent_priority_queue<int> pq(arr, arr + 2);
+    tbb::concurrent_priority_queue<int> pq2(std::move(pq));
+    pq2 = std::move(pq);
+    pq2.swap(pq);
+    pq2.assign(arr, arr + 2);
+    pq2 = {1, 2};
+    (void)pq2.empty();
+}
+void tls() {
+    typedef tbb::enumerable_thread_specific<std::string, tbb::cache_aligned_allocator<std::string>, tbb::ets_key_per_instance> E;
+    E e(std::string("a"));
+    const E& ce = e;
+    (void)e.local();
+    for (auto it = e.begin(); it != e.end(); ++it) { (void)it->size(); }
+    for (auto it = ce.begin(); it != ce.end(); it++) {}
+    E::iterator it = e.begin();
+    it += 1; it -= 1; (void)(it + 1); (void)(1 + it); (void)(it - 1); (void)it[0]; --it; it--; (void)(it - it);
+    (void)(it < it); (void)(it > it); (void)(it <= it); (void)(it >= it); (void)(it == it); (void)(it != it);
+    auto r = e.range();
+    auto cr = ce.range();
+    decltype(r) r2(r, tbb::split());
+    (void)cr.empty();
+    (void)e.size(); (void)e.empty();
+    E e2(std::move(e));
+    E e3;
+    e3 = std::move(e2);
+    e3 = ce;
+    tbb::enumerable_thread_specific<std::string> other;
+    E e4(other);
+    E e5(std::move(other));
+    e4 = other;
+    e4 = std::move(other);
+    E e6(3, 'x');
+    tbb::enumerable_thread_specific<std::vector<int>> nested;
+    nested.local().push_back(1);
+    auto f = tbb::flatten2d(nested);
+    for (auto i = f.begin(); i != f.end(); ++i) { (void)*i; }
+    (void)f.size();
+    const auto& cn = nested;
+    auto cf = tbb::flatten2d(cn);
+    for (auto i = cf.begin(); i != cf.end(); i++) {}
+    auto f2 = tbb::flatten2d(nested, nested.begin(), nested.end());
+    (void)(f2.begin() == f2.end());
+    tbb::combinable<std::string> c;
+    tbb::combinable<std::string> c2(c);
+    c2 = c;
+    tbb::combinable<std::string> c3(std::move(c));
+    c3 = std::move(c2);
 }
 } // namespace drv
